@@ -162,7 +162,7 @@ var shapes = []string{
 	"inplace-file", "inplace-dir", "inplace-bundle", "separate-file", "separate-dir", "sync-dir", "sync-inplace",
 	"alias-symlink", "alias-hardlink", "stdin-file",
 	"to-stdout", "bundle-stdout", "bundle-file", "many-files-dir", "dir-noslash", "filters", "type-override", "ext-map",
-	"stdin-stdout", "rejected", "dir-without-r", "symlink-inputs",
+	"stdin-stdout", "rejected", "dir-without-r", "symlink-inputs", "big-dir", "dash-stdout",
 }
 
 const nCrashShapes = 10
@@ -369,6 +369,42 @@ func GenCase(tape *sim.Tape, crashBias bool) *Case {
 		genDir(tape, t, "src", 1, false, &counter)
 		f := one("", minifiableExts, true)
 		iv.Inputs, iv.Output = []string{"src", f}, "out/"
+	case "big-dir":
+		// more tasks than the worker pool plus its task channel can hold at once
+		n := 40 + tape.Draw(40)
+		t.Entries = append(t.Entries, Entry{Path: "src", Kind: KDir})
+		for i := 0; i < n; i++ {
+			counter++
+			ext := minifiableExts[tape.Draw(8)]
+			name := fmt.Sprintf("src/f%03d.%s", counter, ext)
+			if tape.Draw(6) == 0 {
+				name = fmt.Sprintf("src/d%d/f%03d.%s", tape.Draw(3), counter, ext)
+			}
+			good := goodContent[ext]
+			data := []byte(good[tape.Draw(len(good))])
+			if tape.Draw(10) == 0 && len(badContent[ext]) > 0 {
+				data = []byte(badContent[ext][tape.Draw(len(badContent[ext]))])
+			}
+			t.Entries = append(t.Entries, Entry{Path: name, Kind: KFile, Data: data, Mode: 0o644})
+		}
+		iv.Recursive = true
+		iv.Inputs, iv.Output = []string{[]string{"src", "src/"}[tape.Draw(2)]}, []string{"out/", "src/"}[tape.Draw(2)]
+		if iv.Output == "src/" {
+			iv.Inputs = []string{"src/"}
+		}
+		iv.Verbose = 0
+	case "dash-stdout":
+		// "-" as output means stdout, "-" as the only input means stdin
+		if tape.Draw(2) == 0 {
+			f := one("", minifiableExts, true)
+			iv.Inputs, iv.Output = []string{f}, "-"
+		} else {
+			ext := minifiableExts[tape.Draw(6)]
+			iv.Stdin, _ = Content(tape, ext, true)
+			iv.Type = ext
+			iv.Inputs = []string{"-"}
+			iv.Output = []string{"", "out." + ext}[tape.Draw(2)]
+		}
 	case "symlink-inputs":
 		genDir(tape, t, "src", 1, false, &counter)
 		f := one("real", minifiableExts, true)
